@@ -331,11 +331,13 @@ WORKLOADS = {
 def preimport():
     """Everything the operations import lazily is imported in the parent (and nothing is called), so that forked
     children start from the same pristine, fully imported state."""
-    import cm_colors.core.optimisation  # noqa
-    import cm_colors.core.visualiser  # noqa
-    import cm_colors.cli.main  # noqa
-    import cm_colors.cli.html_report  # noqa
-    import mc.cli.run  # noqa
+    import importlib
+
+    for m in ("cm_colors.core.optimisation", "cm_colors.core.visualiser", "cm_colors.cli.main", "cm_colors.cli.html_report", "mc.cli.run"):
+        try:
+            importlib.import_module(m)
+        except ImportError:
+            pass  # a refactor may have moved it; the operations then import what they need themselves
 
 
 def _pkg_dir():
